@@ -79,7 +79,7 @@ func vhRounds() int { return 2 }
 // this client; the reported flag and method are what ran.
 //
 //verif:unwind 6
-func VH_C03_ClientAuth() { vhClientAuth() }
+func VH_C03_ClientAuth() { vhClientAuth(false) }
 
 // VH_C10_ClientPolicyKept: the same run read for C10: whatever a handshake does,
 // the method list of the caller's configuration is afterwards exactly what was
@@ -87,9 +87,10 @@ func VH_C03_ClientAuth() { vhClientAuth() }
 // negotiates from the configured list, not from what the previous peer left of it.
 //
 //verif:unwind 6
-func VH_C10_ClientPolicyKept() { vhClientAuth() }
+func VH_C10_ClientPolicyKept() { vhClientAuth(true) }
 
-func vhClientAuth() {
+// (lite: the peer never hangs up mid-exchange -- that dimension is the C03 run's)
+func vhClientAuth(lite bool) {
 	st := stream.NewStream(&vhConn{})
 	io_ := &vhIO{st: st}
 	defer vhInstall(io_)()
@@ -120,7 +121,7 @@ func vhClientAuth() {
 	neg := &SecurityNegotiation{Command: commands.DC_AUTHENTICATE, ClientConfig: cfg, ServerConfig: srv, IsClient: true}
 	round := 0
 	io_.peer = func(k int) []vhItem {
-		if k >= len(vhEOFNames) || vBool(vhEOFNames[k]) {
+		if k >= len(vhEOFNames) || (!lite && vBool(vhEOFNames[k])) {
 			return nil
 		}
 		if _, ok := vhRanOK(); ok {
